@@ -105,6 +105,36 @@ def slice_vis(eng, rows, cols, prune=(True, True), hide=((), ()), hide_ins=(Fals
     return obs
 
 
+def fixture_mr_derived(eng, order=(3, 1, 2), hide=(1,), prune=True):
+    """CAT x MR fixture with a derived (inserted by the backend) MR item, explicit column order, hide / prune on the derived item"""
+    import json
+    raw = json.load(open("/repo/tests/fixtures/mr_insertions/cat-x-mr.json"))
+    res = raw["result"]
+    n = len(res["counts"])
+    from symx.inject import SymList
+    # head counts are symbolic on the cells of the derived item (item 0), fixed to 2 elsewhere: rows are never empty,
+    # the derived item is empty or not (the other 2^(rows+cols) emptiness patterns are covered by the tabulated scenarios)
+    U = [eng.real("u%d" % k, lo=0) if (k // 3) % 4 == 0 else 2 for k in range(n)]
+    Wt = [eng.real("w%d" % k, lo=0) for k in range(n)]
+    res["counts"] = SymList(U)
+    res["measures"]["count"]["data"] = SymList(Wt)
+    tr = {"columns_dimension": {"prune": bool(prune), "order": {"type": "explicit", "element_ids": list(order)},
+                                "elements": {str(e): {"hide": True} for e in hide}}}
+    part = Cube(raw, transforms=tr).partitions[0]
+    Ua = np.array(U, dtype=object).reshape(7, 4, 3)
+    valid_rows = [0, 1, 2, 3, 5]
+    visible = set()
+    for j in range(4):
+        base = _sum([Ua[i, j, p] for i in valid_rows for p in (0, 1)])
+        empty = bool(base == 0)
+        if (j + 1) not in hide and not (prune and empty):
+            visible.add(j)
+    got = [int(i) for i in part.column_order()]
+    return [Obs("visible column elements", sorted(i for i in got if i >= 0), sorted(visible), kind="same"),
+            Obs("no duplicates", len(got), len(set(got)), kind="same"),
+            Obs("shape", int(part.shape[1]), len(got), kind="same")]
+
+
 def strand_vis(eng, rows, prune=True, hide=()):
     w = CellWorld(eng, [rows], u_concrete=None)
     v = w.vars[0]
@@ -147,6 +177,8 @@ def specs(tier):
     add("cat x cat prune both, hide + prune", "slice_vis", dict(rows=cat_a, cols=cat_b, prune=[True, True], hide=[[0], [0]]))
     add("cat strand prune", "strand_vis", dict(rows=("cat", "a", 3, {"missing_at": (1,), "insertions": [S("s", [1, 3])]}), prune=True, hide=[1]))
     add("cat strand no prune", "strand_vis", dict(rows=("cat", "a", 3, {"missing_at": (0,)}), prune=False, hide=[0]))
+    add("fixture cat x mr with derived item: explicit order, derived item hidden", "fixture_mr_derived", dict(order=[3, 1, 2], hide=[1], prune=False))
+    add("fixture cat x mr with derived item: explicit order, prune", "fixture_mr_derived", dict(order=[2, 1], hide=[], prune=True), max_paths=100)
     add("mr strand prune", "strand_vis", dict(rows=("mr", "a", 2, {}), prune=True))
     if tier == "thorough":
         cat3 = ("cat", "a", 3, {"missing_at": (1,), "insertions": [S("s", [1, 2])]})
